@@ -84,7 +84,9 @@ pub fn run(thorough: bool) -> Vec<Part> {
     part.set("limit_length_pairs", json!(combos.len()));
     let tail = b"GET /tail HTTP/1.1\r\n\r\n".to_vec();
     let mk_stream = |l: usize, n: u64| -> (Vec<u8>, usize) {
-        let head = format!("PUT /p HTTP/1.1\r\nContent-Length: {}\r\n\r\n", n).into_bytes();
+        // every third pair also asks for a 100 Continue: the limit decides first
+        let expect = if (l as u64 + n) % 3 == 0 { "Expect: 100-continue\r\n" } else { "" };
+        let head = format!("PUT /p HTTP/1.1\r\n{}Content-Length: {}\r\n\r\n", expect, n).into_bytes();
         let hl = head.len();
         let mut s = head;
         if n <= u32::MAX as u64 && (n as usize) <= l && n <= 70_000 {
